@@ -35,22 +35,21 @@ CMP = ["qacc", "qfrc_constraint", "qpos", "qvel"]
 
 
 def _accept(mjm):
-  return mjm.ntree >= 2 and mjm.nv <= 40
+  return mjm.ntree >= 2 and mjm.nv <= 48
 
 
 def gen(seed, idx, tier):
   r = _rng.gen("c38", seed, idx)
   feats = {"plane": True, "free": True, "dense_contacts": True, "tiny": False, "eq_connect": False, "eq_weld": False, "mocap": False}
-  if r.random() < 0.4:
-    feats["pile"] = True
-  spec, rejected = scen.pick_model(seed, idx, features=feats, size="s", curated_p=0.0, accept=_accept, tries=40)
+  feats["pile"] = False
+  spec, rejected = scen.pick_model(seed, idx, features=feats, size=str(r.choice(["s", "m"])), curated_p=0.0, accept=_accept, tries=60)
   spec["opt"]["solver"] = "newton"
   spec["opt"]["sleep_tolerance"] = float(r.choice([0.05, 0.3, 1.0, 3.0]))
   spec["opt"]["disableflags"] = int(spec["opt"].get("disableflags", 0)) & ~262144
   return {
     "property": ID, "seed": seed, "idx": idx, "model": spec, "nworld": int(r.choice([1, 2, 3])), "rejected_models": rejected, "tier": tier,
     "init": {"seed": int(r.integers(1 << 30)), "pos_noise": 0.03, "vel_noise": 0.2},
-    "hist_seed": int(r.integers(1 << 30)), "K": int(r.integers(25, 70)), "kick_p": float(r.choice([0.02, 0.05, 0.1])),
+    "hist_seed": int(r.integers(1 << 30)), "K": int(r.integers(20, 45)) if tier != "thorough" else int(r.integers(25, 90)), "kick_p": float(r.choice([0.02, 0.05, 0.1])),
     "value_seed": int(r.integers(1 << 30)),
   }  # fmt: skip
 
@@ -103,10 +102,10 @@ def run(sc):
     values = sorted(v for v in cand if 0 <= v <= nv)
     if nv <= 24:
       values = sorted(set(values) | {int(x) for x in r.integers(0, nv + 1, size=6)})
-    if quick and len(values) > 12:
+    if quick and len(values) > 8:
       keep = {0, nv - 1, nv}
       rest = [v for v in values if v not in keep]
-      values = sorted(keep | {rest[i] for i in r.choice(len(rest), size=9, replace=False)})
+      values = sorted(keep | {rest[i] for i in r.choice(len(rest), size=5, replace=False)})
   C = {c: mk(ms, c) for c in values}
   alive = {c: [True] * nworld for c in values}
   cxs = [core.Ctx(mjm, mn, N), core.Ctx(mjm, ms, A)] + [core.Ctx(mjm, ms, C[c]) for c in values]
@@ -133,6 +132,7 @@ def run(sc):
       break
     post_awake = sa["tree_asleep"] < 0
     dof_tree = mjm.dof_treeid
+    obs_c = {c: {f: getattr(C[c], f).numpy() for f in CMP + ["nefc", "solver_niter", "overflow"]} for c in values}
     for w in range(nworld):
       nsleep = int((~post_awake[w]).sum())
       need_pre = int(sum(int((dof_tree == t).sum()) for t in range(mjm.ntree) if pre_awake[w, t]))
@@ -165,7 +165,7 @@ def run(sc):
       for c in values:
         if not alive[c][w]:
           continue
-        sc_ = core.snapshot(ms, C[c])
+        sc_ = obs_c[c]
         bits = int(sc_["overflow"][w])
         stats["evaluations"] += 1
         rel = "zero" if c == 0 else "short" if c < need - 1 else "one-short" if c == need - 1 else "exact-fit" if c == need else "spare"
@@ -181,8 +181,8 @@ def run(sc):
         if bits & core.OVERFLOW_CAPACITY:
           alive[c][w] = False
           continue
-        vc = core.world_view(sc_, w)
-        dd = core.diff_views(vc, va, skip=("overflow",))
+        vc = {f: sc_[f][w] for f in CMP + ["nefc", "solver_niter"]}
+        dd = [f for f in vc if not core.bits_equal(vc[f], va[f])]
         if dd:
           lim = (bits | int(sa["overflow"][w])) & (core.OV_ITER | core.OV_LS)
           bad = [] if lim else core.tol_diff({f: vc[f] for f in CMP}, {f: va[f] for f in CMP}, {"qpos"}, stats=stats, tag="nvmax_vs_ample")
